@@ -39,6 +39,7 @@ type traceConn struct {
 	log      []string
 	blocked  chan struct{} // one token per Read/Write call that starts waiting
 	closed   bool
+	failPast bool // SetReadDeadline with a time in the past fails (probe only, see cancelprobe)
 }
 
 func newTraceConn(honours bool) *traceConn {
@@ -71,6 +72,11 @@ func (c *traceConn) wakeAt(t time.Time) {
 
 func (c *traceConn) SetReadDeadline(t time.Time) error {
 	c.mu.Lock()
+	if c.failPast && classifyDeadline(t) == "d2" {
+		c.log = append(c.log, "Rfail")
+		c.mu.Unlock()
+		return fmt.Errorf("set deadline: refused")
+	}
 	c.log = append(c.log, "R"+classifyDeadline(t))
 	c.rdl = t
 	c.cond.Broadcast()
@@ -570,6 +576,21 @@ func init() {
 			return nil
 		})
 	}
+	// cancelprobe (not part of any check stream): the one exit of the cancel arm that does not join the
+	// helper - SetReadDeadline(aLongTimeAgo) itself fails.  Outside the property's quantifier (it needs a
+	// connection whose SetDeadline fails while it is open); prints what happens.
+	commands["cancelprobe"] = func(e *env) error {
+		conn := newTraceConn(true)
+		conn.failPast = true
+		cx := ctxio.NewConn(conn)
+		base := stableGoroutines()
+		ctx, cancel := context.WithCancel(context.Background())
+		go func() { conn.waitBlocked(time.Second); cancel() }()
+		_, err := cx.ReadBytes(ctx, 0)
+		left := settleGoroutines(base)
+		fmt.Fprintf(e.out, "cancelprobe returned=%v trace=%s goroutines-left-behind=%d\n", err, strings.Join(conn.since(0), ","), left)
+		conn.Close()
+		return nil
+	}
 	_ = os.Getpid
-	_ = strings.TrimSpace
 }
